@@ -489,6 +489,10 @@ func (g *gm) call(c *ast.CallExpr) string {
 			// a method of ANOTHER type reached through a field (`a.metadata.DeleteStream`): never a function of this unit,
 			// even when a function of this unit has the same method name
 			name = sx.Sel.Name + "." + name
+		} else if id, ok := fn.X.(*ast.Ident); ok && g.foreign[id.Name] && !g.pkgs[id.Name] {
+			// the same for a LOCAL VARIABLE that holds a value of another type (`partition := m.GetPartition(…)`;
+			// `partition.RemoveFromISR(…)` inside `metadataAPI.RemoveFromISR`): listed per unit by the variable's name
+			name = id.Name + "." + name
 		}
 		return "(.mcall " + g.expr(fn.X) + " " + strconv.Quote(name) + " " + g.args(c) + ")"
 	case *ast.ArrayType:
@@ -1027,7 +1031,8 @@ func (g *gm) declared(name string) bool {
 
 // gmForeign: per unit, the receiver fields whose methods belong to other types.
 var gmForeign = map[string]map[string]bool{"GoAuthz": {"metadata": true, "cursors": true}, "GoFSM": {"metadata": true, "activity": true},
-	"GoLogEpoch": {"leaderEpochCache": true}}
+	"GoLogEpoch": {"leaderEpochCache": true},
+	"GoMetaApply": {"partition": true, "stream": true, "group": true}, "GoSubEntry": {"metadata": true, "partition": true}}
 
 // ptrSliceField: `….<Parent>.<Field>` where the unit's declaration files declare `type <Parent> struct { <Field> []*T }`
 // (the parent is named by the selector before the field: protobuf records name a field after its message type).
@@ -1181,6 +1186,11 @@ func genGoMiniAll() []*leanFile {
 		map[string][]string{sv + "metadata.go": {"metadataAPI.checkLeaderGeneration", "metadataAPI.partitionExists",
 			"metadataAPI.checkShrinkISRPreconditions", "metadataAPI.checkExpandISRPreconditions", "metadataAPI.checkChangeLeaderPreconditions"}},
 		[]string{sv + "metadata.go"})})
+	out = append(out, &leanFile{name: "GoMetaApply", raw: genGoMini("GoMetaApply",
+		[]string{sv + "metadata.go"},
+		map[string][]string{sv + "metadata.go": {"metadataAPI.RemoveFromISR", "metadataAPI.AddToISR", "metadataAPI.ChangeLeader",
+			"metadataAPI.ChangeGroupCoordinator", "metadataAPI.SetReadonly", "metadataAPI.PausePartitions"}},
+		[]string{sv + "metadata.go"})})
 	out = append(out, &leanFile{name: "GoFailover", raw: genGoMini("GoFailover",
 		[]string{sv + "failover.go", sv + "partition.go"},
 		map[string][]string{
@@ -1203,6 +1213,10 @@ func genGoMiniAll() []*leanFile {
 		[]string{sv + "partition.go"},
 		map[string][]string{sv + "partition.go": {"partition.Subscribe", "partition.removeGroupSubscriber"}},
 		[]string{sv + "partition.go"})})
+	out = append(out, &leanFile{name: "GoSubEntry", raw: genGoMini("GoSubEntry",
+		[]string{sv + "api.go"},
+		map[string][]string{sv + "api.go": {"apiServer.SubscribeInternal"}},
+		[]string{sv + "api.go"})})
 	out = append(out, &leanFile{name: "GoAuthz", raw: genGoMini("GoAuthz",
 		[]string{sv + "api.go"},
 		map[string][]string{sv + "api.go": {
